@@ -78,4 +78,72 @@ def cleanFn (p : List Char) : List Char :=
   let out := lexiclean p
   if out = [] ∧ p ≠ [] then ['.'] else out
 
+/-! ### the path functions `file_name`, `extension`, `file_stem`, `parent_directory`,
+`without_extension`, `join` (src/function.rs over camino's `Utf8Path`, i.e. `std::path::Path`) -/
+
+def emit (first : Bool) (cur : List Char) (i : Nat) : List (Comp × Nat) :=
+  match partComp first cur.reverse with
+  | some c => [(c, i)]
+  | none => []
+
+/-- the components of the body with the offset just after each one's text (`cur` = current part,
+reversed; `i` = offset reached) -/
+def scan : Bool → Nat → List Char → List Char → List (Comp × Nat)
+  | first, i, cur, [] => emit first cur i
+  | first, i, cur, c :: cs =>
+    if c = '/' then emit first cur i ++ scan false (i + 1) [] cs
+    else scan first (i + 1) (c :: cur) cs
+
+def componentsPos (p : List Char) : List (Comp × Nat) :=
+  match p with
+  | '/' :: _ => (.root, 1) :: scan false 0 [] p
+  | _ => scan true 0 [] p
+
+/-- `Path::file_name`: the last component, if it is a name -/
+def fileName (p : List Char) : Option (List Char) :=
+  match (componentsPos p).getLast? with
+  | some (.normal s, _) => some s
+  | _ => none
+
+/-- `Path::parent`: the text up to the end of the last but one component; nothing for the root and
+for the empty path -/
+def parentStr (p : List Char) : Option (List Char) :=
+  match (componentsPos p).reverse with
+  | [] => none
+  | (.root, _) :: _ => none
+  | [_] => some []
+  | _ :: (_, e) :: _ => some (p.take e)
+
+/-- text before / after the last `.` -/
+def splitLastDot (f : List Char) : Option (List Char × List Char) :=
+  match f.reverse.dropWhile (· ≠ '.') with
+  | [] => none
+  | _ :: beforeRev => some (beforeRev.reverse, (f.reverse.takeWhile (· ≠ '.')).reverse)
+
+/-- `rsplit_file_at_dot` -/
+def rsplitFileAtDot (f : List Char) : Option (List Char) × Option (List Char) :=
+  if f = ['.', '.'] then (some f, none)
+  else match splitLastDot f with
+    | none => (none, some f)
+    | some (before, after) => if before = [] then (some f, none) else (some before, some after)
+
+def fileStem (p : List Char) : Option (List Char) :=
+  (fileName p).bind (fun f => let (b, a) := rsplitFileAtDot f; b.orElse (fun _ => a))
+
+def extensionOf (p : List Char) : Option (List Char) :=
+  (fileName p).bind (fun f => let (b, a) := rsplitFileAtDot f; b.bind (fun _ => a))
+
+/-- `PathBuf::push` of a path text -/
+def pushStr (buf w : List Char) : List Char :=
+  match w with
+  | '/' :: _ => w
+  | _ => if buf = [] then w else if buf.getLast? = some '/' then buf ++ w else buf ++ '/' :: w
+
+def withoutExtension (p : List Char) : Option (List Char) :=
+  match parentStr p, fileStem p with
+  | some par, some stem => some (pushStr par stem)
+  | _, _ => none
+
+def joinPaths (base : List Char) (ws : List (List Char)) : List Char := ws.foldl pushStr base
+
 end Just.Path
